@@ -149,11 +149,21 @@ def record_runs(scn, refs, tier, seed):
 
 def run(tier, seed):
     chk = Check("C17", tier, seed)
+    family(chk, tier, seed)
+    chk.assumptions = ["'stays within the limit' is decided by measurement: maximum Python call depth of the unbounded search (sys.setprofile) + 30 frames below the swept limit",
+                       "one thread; the caller's own depth is below every swept limit"]
+    return chk.finish()
+
+
+def family(chk, tier, seed, only=None):
+    """only: restrict to the first `only` queries (used by C03 for the projection-raise points)"""
     # 1. the model on its own
     res = tlc.run("EvalBounded", "EvalBounded.cfg", tag="eb-model-%d" % os.getpid())
     chk.add_tlc(res, ["LimitRestored", "BoundedIsPrefix", "NoOverflowWhenShallow", "ReturnsEverythingWhenShallow"])
     # 2. reference answer sequences from the machine
     qs = queries(tier)
+    if only:
+        qs = qs[:only]
     steps = [[{"op": "load", "e": 1, "script": "P", "ow": True}]]
     for i, (g, qnv, k) in enumerate(qs):
         steps.append([{"op": "solve", "e": 1, "r": i + 1, "goal": g, "qnv": qnv, "k": k}])
@@ -180,7 +190,7 @@ def run(tier, seed):
     traces = out.get("traces")
     if traces is None:
         chk.machinery_errors.append("recording evaluate_bounded runs failed")
-        return chk.finish()
+        return
     # 4. TLC validates every trace
     fn = os.path.join(tlc.WORK, "C17-traces-%d.json" % os.getpid())
     with open(fn, "w") as f:
@@ -231,6 +241,3 @@ def run(tier, seed):
     chk.extra["runs_cut_short_by_the_limit_or_infinite"] = n_overflow
     if n_overflow == 0:
         chk.machinery_errors.append("vacuity: no run was cut short by the recursion limit")
-    chk.assumptions = ["'stays within the limit' is decided by measurement: maximum Python call depth of the unbounded search (sys.setprofile) + 30 frames below the swept limit",
-                       "one thread; the caller's own depth is below every swept limit"]
-    return chk.finish()
